@@ -11,6 +11,7 @@ import (
 	"pgregory.net/rapid"
 
 	"verif/harness/internal/batch"
+	"verif/harness/internal/respec"
 )
 
 // TestDebugC11Rejects prints why generated lexer grammars are rejected (development aid).
@@ -124,6 +125,28 @@ func TestDebugC16Case(t *testing.T) {
 	for i, l := range strings.Split(res.Files["parser.go"], "\n") {
 		if strings.Contains(l, "verifObs") || strings.Contains(l, "case ") {
 			fmt.Printf("%d: %s\n", i+1, l)
+		}
+	}
+}
+
+func TestDebugC11Viable(t *testing.T) {
+	path := os.Getenv("VERIF_DEBUG_FILE")
+	if path == "" {
+		t.Skip()
+	}
+	data, _ := os.ReadFile(path)
+	var rf replayFile
+	var c c11Case
+	json.Unmarshal(data, &rf)
+	json.Unmarshal(rf.Case, &c)
+	in := os.Getenv("VERIF_DEBUG_INPUT")
+	for i := range c.Rules {
+		r := &c.Rules[i]
+		env := respec.Env{Bytes: c.bytes(), Fold: c.fold(), RefFold: c.fold(), Refs: c.Named}
+		for off := 0; off < len(in); off++ {
+			v := respec.ViablePrefix([]*respec.Node{r.node()}, []respec.Env{env}, in[off:], c.bytes())
+			lens, _ := respec.MatchLens(r.node(), env, in[off:])
+			fmt.Printf("rule %s at %d: viable=%d match=%v\n", r.Token, off, v, lens)
 		}
 	}
 }
